@@ -383,9 +383,6 @@ where
         part_ids: &mut [usize],
         (adjacency, weights): (T, &'a [W]),
     ) -> Result<Self::Metadata, Self::Error> {
-        if part_ids.is_empty() {
-            return Ok(Metadata::default());
-        }
         if part_ids.len() != weights.len() {
             return Err(Error::InputLenMismatch {
                 expected: part_ids.len(),
@@ -397,6 +394,9 @@ where
                 expected: part_ids.len(),
                 actual: adjacency.len(),
             });
+        }
+        if part_ids.is_empty() {
+            return Ok(Metadata::default());
         }
         let part_count = 1 + *part_ids.par_iter().max().unwrap_or(&0);
         let part_count = usize::max(2, part_count);
